@@ -14,6 +14,7 @@ import (
 	"os"
 	"runtime"
 	"sort"
+	"strings"
 	"sync"
 	"time"
 
@@ -274,6 +275,18 @@ func main() {
 		replay(p, alpha)
 	}
 	c := common.New("C15", "model_checking")
+	if c.Tier != "thorough" {
+		// quick: the GET block repeats the POST block; keep two of the ten malformed-extension
+		// variants on GET (all ten stay on POST). thorough keeps everything.
+		var trimmed []Event
+		for _, e := range alpha {
+			if e.Method == "GET" && strings.HasPrefix(e.Kind, "malformed:") && e.Kind != "malformed:string" && e.Kind != "malformed:no-hash" {
+				continue
+			}
+			trimmed = append(trimmed, e)
+		}
+		alpha = trimmed
+	}
 	depth, seqLen, famDepth := 5, 3, 6
 	c.Budget(150 * time.Second)
 	if c.Tier == "thorough" {
